@@ -67,7 +67,7 @@ def run(ctx):
         for f in r.get("feats") or []:
             feats[f] = feats.get(f, 0) + 1
     ctx.extra["search_programs"] = len(rows)
-    ctx.extra["search_by_source"] = {k: sum(1 for r in rows if r["from"] == k) for k in ("gen", "corpus", "witness")}
+    ctx.extra["search_by_source"] = {k: sum(1 for r in rows if r["from"] == k) for k in ("gen", "corpus", "witness", "regress")}
     ctx.extra["search_behaviour_compared"] = len(ran)
     ctx.extra["search_distinct_formatted_texts"] = sum(r.get("nvar", 0) for r in ran)
     ctx.extra["search_not_run"] = skips
